@@ -1,6 +1,7 @@
 package c05
 
 import (
+	"bytes"
 	"errors"
 	"fmt"
 	"io"
@@ -271,3 +272,79 @@ func typedRoutes(r *evid.Run) {
 }
 
 var _ = refjson.MaxDepth
+
+// ---- Decoder.Reset: a reset Decoder behaves like a new one ----
+//
+// After any number of calls on input A (through any reader kind, ending anywhere: mid-value, after an error, after
+// a long document that grew the buffer and advanced the base offset), Reset onto input B must give exactly the
+// observations of a fresh Decoder on B: tokens, offsets, stack pointers, final error.
+
+func resetFamily(r *evid.Run) {
+	long := `{"k":"` + strings.Repeat("v", 300) + `","arr":[` + strings.Repeat("123456,", 60) + `0]}`
+	as := []string{`{"a":{"b":[1,2,{"c":"d"}]},"e":null} 7 [`, long + " " + long, `[1,2,x]`, `{"dup":1,"dup":2}`, `"` + strings.Repeat("s", 5000) + `"`, ``}
+	bs := []string{`{"x":[true,{"y":"z"}],"w":"` + strings.Repeat("q", 90) + `"} 12`, `[1,}`, `{"p":{"p":{"p":[]}}}`, long}
+	shapes := []Sched{{}, {Chunk: 1}, {Chunk: 7}, {Chunk: 64}}
+	type unit struct{ a, b int }
+	var units []unit
+	for a := range as {
+		for b := range bs {
+			units = append(units, unit{a, b})
+		}
+	}
+	enum.Parallel(r, len(units), func(w *enum.Worker) func(int) {
+		x := newRunner()
+		var cur Case
+		w.Describe = func() any { return cur }
+		var n int64
+		w.Done = func() { r.Evaluations.Add(n); r.Nontrivial.Add(n) }
+		return func(u int) {
+			a, b := []byte(as[units[u].a]), []byte(bs[units[u].b])
+			ntok := countTokens(a) + 2
+			for _, prog := range []string{"", strings.Repeat("V", 64)} {
+				for k := 0; k <= ntok && k <= 140; k++ {
+					for si, sa := range shapes {
+						for _, sb := range []Sched{shapes[(si+1)%len(shapes)], {}} {
+							for _, useBuffer := range []bool{false, true} {
+								n++
+								cur = Case{Input: b, Program: prog, Sched: sb, First: a, FirstSched: sa, FirstBuffer: useBuffer, ResetAfter: k, IsReset: true}
+								if msg := resetOne(x, cur); msg != "" {
+									report(r, cur, msg)
+								}
+							}
+						}
+					}
+					w.Beat()
+				}
+			}
+		}
+	})
+	r.Bound("Decoder.Reset: %d first inputs (nested, two long documents, syntax error, duplicate name, 5 KiB string, empty) x every number of calls made on them x 4 reader shapes + bytes.Buffer x %d second inputs x 2 reader shapes x {token walk, value walk}: the reset Decoder's observations equal a fresh Decoder's", len(as), len(bs))
+}
+
+// resetOne executes one case of the Reset family.
+func resetOne(x *runner, cs Case) string {
+	want := append([]obs(nil), x.baseline(cs.Input, cs.Program)...)
+	var dec *jsontext.Decoder
+	if cs.FirstBuffer {
+		dec = jsontext.NewDecoder(bytes.NewBuffer(append([]byte(nil), cs.First...)))
+	} else {
+		dec = jsontext.NewDecoder(&reader{data: cs.First, s: cs.FirstSched})
+	}
+	for i := 0; i < cs.ResetAfter; i++ {
+		if _, err := dec.ReadToken(); err != nil {
+			break
+		}
+	}
+	dec.Reset(&reader{data: cs.Input, s: cs.Sched})
+	if off, d := dec.InputOffset(), dec.StackDepth(); off != 0 || d != 0 || dec.StackPointer() != "" {
+		return fmt.Sprintf("right after Reset (made after %d calls on %.60q): InputOffset=%d StackDepth=%d StackPointer=%q, want 0, 0, \"\"", cs.ResetAfter, cs.First, off, d, dec.StackPointer())
+	}
+	got, msg := trace(dec, cs.Program, nil, nil)
+	if msg == "" {
+		msg = diff(want, got)
+	}
+	if msg != "" {
+		return fmt.Sprintf("after %d calls on %.60q (reader %+v, bytes.Buffer=%v) and Reset: %s", cs.ResetAfter, cs.First, cs.FirstSched, cs.FirstBuffer, msg)
+	}
+	return ""
+}
